@@ -1,8 +1,8 @@
 /-
   Flood — executable network model of route flooding (properties C11–C15).
 
-  Source modelled, statement by statement (tree = /repo + fixes/C13-forward-metric.patch +
-  fixes/C15-max-hops.patch):
+  Source modelled, statement by statement (tree = /repo with fixes/C13-forward-metric.patch,
+  fixes/C15-max-hops.patch and fixes/C15-wire-count-replay.patch applied):
     internal/flood/flood.go      HandleRouteAdvertise, HandleRouteWithdraw, floodAdvertisementEncrypted,
                                  floodWithdrawal, floodFrame, AnnounceLocalRoutes, WithdrawLocalRoutes,
                                  SendFullTable, cleanupSeenCache
@@ -20,8 +20,11 @@
 
   Abstractions (stated in props/C11.py): time is a logical clock (one tick per op); seen-cache
   expiry is an explicit op that may remove any key at any moment; u64 sequence numbers are `Nat`;
-  paths / seen-by lists are shorter than 256 entries (one-byte length on the wire) and an
-  advertisement has fewer than 256 routes (C06); metrics are u16 and wrap like the code.
+  metrics are u16 and wrap like the code.  The one-byte wire counts are modelled by the guards the
+  code has (no forward / no replay beyond 255 agents; at most 255 routes per advertisement or
+  withdrawal, `splitRoutes`), and `C15_no_wrap` proves they never wrap.  Where Go map iteration
+  decides (origin order and `x[0]` path choice of SendFullTable, grouping of more than 255 routes)
+  the ops carry a `hint`: the outcome the implementation chose, used when admissible.
 -/
 namespace MM.C11
 
